@@ -172,75 +172,9 @@ func init() {
 			}
 		})
 
-		c.Group("C01/getTS", "every successful return of getTS is dominated by logical < maxLogical and by a leadership check made after the timestamp was generated; count==0 is rejected", func() {
-			getTS := P.Method(tso, "timestampOracle", "getTS")
-			gen := F(P.Method(tso, "timestampOracle", "generateTSO"))
-			check := F(P.Method("server/election", "Leadership", "Check"))
-			maxLogical, ok := constIntObj(P.obj(tso, "maxLogical"))
-			if !ok {
-				undecidedf("maxLogical is not an integer constant")
-			}
-			fLogical := P.Field("github.com/pingcap/kvproto/pkg/pdpb", "Timestamp", "Logical")
-			getLogical := F(P.Method("github.com/pingcap/kvproto/pkg/pdpb", "Timestamp", "GetLogical"))
-			logicalVal := orPred(loadOfField(fLogical), resultOfCall(getLogical))
-			gOverflow := guardRel("logical<maxLogical", "<", logicalVal, isConstInt(maxLogical))
-			gOverflow.invalidate = instrCallMatcher(gen)
-			lead := newBoolEv(getTS, "leadership.Check() after generateTSO", true, callMatcher(check))
-			lead.reset = instrCallMatcher(gen)
-			generated := &calledEv{name: "generateTSO called", match: instrCallMatcher(gen)}
-			c.need("C01/getTS", getTS, "successful return", func(x ssa.Instruction) bool {
-				r, ok := x.(*ssa.Return)
-				return ok && retIsNilErr(r)
-			}, []Ev{gOverflow, lead, generated}, all, "generateTSO called; then logical < maxLogical (false edge of >=) and leadership.Check() true, both evaluated after the last generateTSO")
-			var countParam ssa.Value
-			for _, p := range getTS.Params {
-				if p.Name() == "count" {
-					countParam = p
-				}
-			}
-			if countParam == nil && len(getTS.Params) >= 3 {
-				countParam = getTS.Params[2]
-			}
-			c.atomRejects("C01/getTS", getTS, "count == 0 ⇒ error", relMatcher("==", same(countParam), isConstInt(0)), errReturn)
-		})
+		c.Group("C01/getTS", "every successful return of getTS is dominated by logical < maxLogical and by a leadership check made after the timestamp was generated; count==0 is rejected", func() { ruleGetTS(c) })
 
-		c.Group("C01/global-generate", "a global timestamp is returned only after SyncMaxTS succeeded, the estimate passed the overflow pre-check, and leadership was re-checked after the last write to any allocator", func() {
-			gen := P.Method(tso, "GlobalTSOAllocator", "GenerateTSO")
-			check := F(P.Method("server/election", "Leadership", "Check"))
-			syncMax := F(P.Method(tso, "GlobalTSOAllocator", "SyncMaxTS"))
-			reset := F(P.Method(tso, "timestampOracle", "resetUserTimestamp"))
-			getTS := F(P.Method(tso, "timestampOracle", "getTS"))
-			estimate := P.Method(tso, "GlobalTSOAllocator", "estimateMaxTS")
-			precheck := F(P.Method(tso, "GlobalTSOAllocator", "precheckLogical"))
-			lead := newBoolEv(gen, "leadership.Check() after last SyncMaxTS/reset", true, callMatcher(check))
-			lead.reset = instrCallMatcher(syncMax, reset)
-			synced := newOkEv(gen, "ok(SyncMaxTS)", callMatcher(syncMax))
-			c.need("C01/global-generate", gen, "successful return (synchronised path)", func(x ssa.Instruction) bool {
-				r, ok := x.(*ssa.Return)
-				return ok && retIsNilErr(r)
-			}, []Ev{lead, synced}, all, "ok(SyncMaxTS) and a true leadership.Check() evaluated after the last SyncMaxTS / resetUserTimestamp")
-			// the non-synchronised path delegates to getTS (covered above): the only other non-error exit
-			n := len(callsIn(gen, false, getTS))
-			c.Check(n >= 1, "C01/global-generate", "delegation to getTS in "+fnName(gen), "without dc-locations the request is served by getTS", P.pos(gen.Pos()), "")
-			// the first leadership check dominates everything
-			c.need("C01/global-generate", gen, "first use of the allocator state", instrCallMatcher(getTS, F(estimate)),
-				[]Ev{guardCall("leadership.Check()", true, callMatcher(check))}, all, "nothing is generated unless leadership.Check() was true on entry")
-			// estimateMaxTS hands out an estimate only if precheckLogical accepted it
-			c.need("C01/global-generate", estimate, "return of an estimate", func(x ssa.Instruction) bool {
-				r, ok := x.(*ssa.Return)
-				if !ok || len(r.Results) != 3 || !retIsNilErr(r) {
-					return false
-				}
-				b, isC := constBool(retVal(r, 1))
-				return isC && !b
-			}, []Ev{guardCall("precheckLogical", true, callMatcher(precheck))}, all, "an estimate is returned for use only on the true edge of precheckLogical")
-			// precheckLogical rejects differentiated logical >= maxLogical
-			maxLogical, _ := constIntObj(P.obj(tso, "maxLogical"))
-			diffL := F(P.Method(tso, "timestampOracle", "differentiateLogical"))
-			pre := P.Method(tso, "GlobalTSOAllocator", "precheckLogical")
-			c.atomRejects("C01/global-generate", pre, "differentiateLogical(logical) >= maxLogical ⇒ false",
-				relMatcher(">=", resultOfCall(diffL), isConstInt(maxLogical)), boolReturn(false))
-		})
+		c.Group("C01/global-generate", "a global timestamp is returned only after SyncMaxTS succeeded, the estimate passed the overflow pre-check, and leadership was re-checked after the last write to any allocator", func() { ruleGlobalGenerate(c) })
 
 		c.Group("C01/bit-width", "the 18-bit logical field is the same constant in the allocator, tsoutil and every compose/parse literal", func() {
 			maxLogical, ok := constIntObj(P.obj(tso, "maxLogical"))
@@ -357,4 +291,82 @@ func init() {
 			c.Check(f1 && hasLE && hasLT, "C01/client", "tsLessEqual", "physical == ⇒ logical <=, otherwise physical <", P.pos(tl.Pos()), "")
 		})
 	})
+}
+
+func ruleGetTS(c *Ctx) {
+	P := c.P
+	const tso = "server/tso"
+	rule := c.Prop + "/getTS"
+
+	getTS := P.Method(tso, "timestampOracle", "getTS")
+	gen := F(P.Method(tso, "timestampOracle", "generateTSO"))
+	check := F(P.Method("server/election", "Leadership", "Check"))
+	maxLogical, ok := constIntObj(P.obj(tso, "maxLogical"))
+	if !ok {
+		undecidedf("maxLogical is not an integer constant")
+	}
+	fLogical := P.Field("github.com/pingcap/kvproto/pkg/pdpb", "Timestamp", "Logical")
+	getLogical := F(P.Method("github.com/pingcap/kvproto/pkg/pdpb", "Timestamp", "GetLogical"))
+	logicalVal := orPred(loadOfField(fLogical), resultOfCall(getLogical))
+	gOverflow := guardRel("logical<maxLogical", "<", logicalVal, isConstInt(maxLogical))
+	gOverflow.invalidate = instrCallMatcher(gen)
+	lead := newBoolEv(getTS, "leadership.Check() after generateTSO", true, callMatcher(check))
+	lead.reset = instrCallMatcher(gen)
+	generated := &calledEv{name: "generateTSO called", match: instrCallMatcher(gen)}
+	c.need(rule, getTS, "successful return", func(x ssa.Instruction) bool {
+		r, ok := x.(*ssa.Return)
+		return ok && retIsNilErr(r)
+	}, []Ev{gOverflow, lead, generated}, all, "generateTSO called; then logical < maxLogical (false edge of >=) and leadership.Check() true, both evaluated after the last generateTSO")
+	var countParam ssa.Value
+	for _, p := range getTS.Params {
+		if p.Name() == "count" {
+			countParam = p
+		}
+	}
+	if countParam == nil && len(getTS.Params) >= 3 {
+		countParam = getTS.Params[2]
+	}
+	c.atomRejects(rule, getTS, "count == 0 ⇒ error", relMatcher("==", same(countParam), isConstInt(0)), errReturn)
+}
+
+func ruleGlobalGenerate(c *Ctx) {
+	P := c.P
+	const tso = "server/tso"
+	rule := c.Prop + "/global-generate"
+
+	gen := P.Method(tso, "GlobalTSOAllocator", "GenerateTSO")
+	check := F(P.Method("server/election", "Leadership", "Check"))
+	syncMax := F(P.Method(tso, "GlobalTSOAllocator", "SyncMaxTS"))
+	reset := F(P.Method(tso, "timestampOracle", "resetUserTimestamp"))
+	getTS := F(P.Method(tso, "timestampOracle", "getTS"))
+	estimate := P.Method(tso, "GlobalTSOAllocator", "estimateMaxTS")
+	precheck := F(P.Method(tso, "GlobalTSOAllocator", "precheckLogical"))
+	lead := newBoolEv(gen, "leadership.Check() after last SyncMaxTS/reset", true, callMatcher(check))
+	lead.reset = instrCallMatcher(syncMax, reset)
+	synced := newOkEv(gen, "ok(SyncMaxTS)", callMatcher(syncMax))
+	c.need(rule, gen, "successful return (synchronised path)", func(x ssa.Instruction) bool {
+		r, ok := x.(*ssa.Return)
+		return ok && retIsNilErr(r)
+	}, []Ev{lead, synced}, all, "ok(SyncMaxTS) and a true leadership.Check() evaluated after the last SyncMaxTS / resetUserTimestamp")
+	// the non-synchronised path delegates to getTS (covered above): the only other non-error exit
+	n := len(callsIn(gen, false, getTS))
+	c.Check(n >= 1, rule, "delegation to getTS in "+fnName(gen), "without dc-locations the request is served by getTS", P.pos(gen.Pos()), "")
+	// the first leadership check dominates everything
+	c.need(rule, gen, "first use of the allocator state", instrCallMatcher(getTS, F(estimate)),
+		[]Ev{guardCall("leadership.Check()", true, callMatcher(check))}, all, "nothing is generated unless leadership.Check() was true on entry")
+	// estimateMaxTS hands out an estimate only if precheckLogical accepted it
+	c.need(rule, estimate, "return of an estimate", func(x ssa.Instruction) bool {
+		r, ok := x.(*ssa.Return)
+		if !ok || len(r.Results) != 3 || !retIsNilErr(r) {
+			return false
+		}
+		b, isC := constBool(retVal(r, 1))
+		return isC && !b
+	}, []Ev{guardCall("precheckLogical", true, callMatcher(precheck))}, all, "an estimate is returned for use only on the true edge of precheckLogical")
+	// precheckLogical rejects differentiated logical >= maxLogical
+	maxLogical, _ := constIntObj(P.obj(tso, "maxLogical"))
+	diffL := F(P.Method(tso, "timestampOracle", "differentiateLogical"))
+	pre := P.Method(tso, "GlobalTSOAllocator", "precheckLogical")
+	c.atomRejects(rule, pre, "differentiateLogical(logical) >= maxLogical ⇒ false",
+		relMatcher(">=", resultOfCall(diffL), isConstInt(maxLogical)), boolReturn(false))
 }
